@@ -1076,8 +1076,23 @@ class State:
 
     # ---- C20 -------------------------------------------------------------------------------------------
     def o_emb(self, he):
-        e = copy.deepcopy(self.ex.embs[he]); c = e.complex()      # reading positions fills the cache: use a copy
+        try:
+            return self._emb(he)
+        except Exception as x:      # every call below is a public call with valid arguments
+            return 'FAIL %s raised by the embedding interface: %s' % (type(x).__name__, x)
+
+    def _emb(self, he):
+        real = self.ex.embs[he]
+        for s, n in getattr(real, 'percount', {}).items():
+            if n > 1:
+                return 'FAIL position of %r computed %d times since the positions were last cleared' % (s, n)
+        e = copy.deepcopy(real); c = e.complex()      # reading positions fills the cache: use a copy
         pts = list(c.simplicesOfOrder(0))
+        if hasattr(e, 'percount'):
+            for s in pts:
+                e.positionOf(s); e[s]; e.positionsOf([s])
+                if e.percount.get(s, 0) > 1:
+                    return 'FAIL position of %r computed %d times by three reads' % (s, e.percount[s])
         if len(e) != len(pts):
             return 'FAIL len(embedding) = %r' % (len(e),)
         for s in c.simplices():
